@@ -437,3 +437,47 @@ Proof.
   destruct (N.eqb_spec p 2) as [->|]; [intros [<-|[]]; vm_compute; lia|].
   destruct (N.eqb_spec p 3) as [->|]; [intros [<-|[]]; vm_compute; lia|]. intros [].
 Qed.
+
+(* ---- file store ---- *)
+Lemma frun_inv content ops : forall s,
+  (Inv content (f_graph s) /\ forall x, In x (g_nodes (f_graph s)) <-> In x (f_blobs s)) ->
+  let s' := fold_left (fstep true content) ops s in
+  Inv content (f_graph s') /\ forall x, In x (g_nodes (f_graph s')) <-> In x (f_blobs s').
+Proof.
+  induction ops as [|o r IH]; intros s H; simpl; auto.
+  apply IH. destruct H as [HI Hn]. destruct o as [n st rs]. simpl.
+  destruct (smem n (f_blobs s) || negb st); [auto|]. simpl. split; [apply index_Inv, HI|].
+  intro x. rewrite In_sadd, Hn. intuition auto.
+Qed.
+
+Lemma file_history_exact content ops n :
+  let s := frun true content ops in
+  NoDup (predecessors (f_graph s) n) /\
+  forall p, In p (predecessors (f_graph s) n) <-> In p (f_blobs s) /\ In n (content p).
+Proof.
+  intro s.
+  destruct (frun_inv content ops empty_fstore) as [HI Hn].
+  { split; [apply Inv_empty | simpl; tauto]. }
+  fold (frun true content ops) in HI, Hn. fold s in HI, Hn.
+  destruct (predecessors_exact content (f_graph s) HI n) as [Hd Hm]. split; auto.
+  intro p. rewrite Hm, Hn. tauto.
+Qed.
+
+Lemma file_index_first_true : file_index_first = true.
+Proof. vm_compute. reflexivity. Qed.
+
+Lemma file_history_exact_src content ops n :
+  let s := frun file_index_first content ops in
+  NoDup (predecessors (f_graph s) n) /\
+  forall p, In p (predecessors (f_graph s) n) <-> In p (f_blobs s) /\ In n (content p).
+Proof. rewrite file_index_first_true. apply file_history_exact. Qed.
+
+(* restore before index: a manifest whose duplicate cannot be restored is stored, not indexed *)
+Lemma file_restore_first_refuted :
+  exists content ops n p,
+    let s := frun false content ops in
+    In p (f_blobs s) /\ In n (content p) /\ ~ In p (predecessors (f_graph s) n).
+Proof.
+  exists (ctab pf_ct), [FPush 0%N true true; FPush 2%N true false], 0%N, 2%N.
+  vm_compute. repeat split; auto.
+Qed.
